@@ -11,6 +11,9 @@ From GE Require Export Lib.Bytes.
 From GE Require Import Gen.Blech32Consts.
 Open Scope N_scope.
 
+(* a module of its own so that the extracted names (B32.decode, ...) cannot clash with other models *)
+Module B32.
+
 Definition BLECH32 : N := Z.to_N g_BLECH32.
 Definition BLECH32M : N := Z.to_N g_BLECH32M.
 Definition gen : list N := map Z.to_N g_gen.
@@ -150,7 +153,7 @@ Definition decode (s : bytes) : dres :=
   | GPanic => DPanic
   | GOk hrp data checksum =>
       match data with
-      | [] => DPanic                                 (* data[0] on an empty data part *)
+      | [] => DErr                                   (* "missing witness version" (fix 4672273) *)
       | v :: _ =>
           match encoding_of_version v with
           | None => DErr
@@ -208,3 +211,5 @@ Definition convert_bits (data : bytes) (from_bits to_bits : N) (pad : bool) : op
     else st in
   if (0 <? cb_filled st') && ((4 <? cb_filled st') || negb (cb_next st' =? 0)) then None
   else Some (rev (cb_out st')).
+
+End B32.
